@@ -17,7 +17,10 @@ class Captured(Exception):
 
 
 def mk_static_dist(tag):
-    dist = Rec("distrax.Distribution", dict(id=z3.Const(f"{tag}.dist", Leaf), sample=lambda ex, sample_shape=(), seed=None: DSAMPLE(z3.Const(f"{tag}.dist", Leaf), seed)), module=None, frozen=True)
+    def sample(ex, sample_shape=(), seed=None):
+        ex.ghost.setdefault("dsample_calls", []).append((tag, seed))
+        return DSAMPLE(z3.Const(f"{tag}.dist", Leaf), seed)
+    dist = Rec("distrax.Distribution", dict(id=z3.Const(f"{tag}.dist", Leaf), sample=sample), module=None, frozen=True)
     return Rec("StaticDist", dict(rng=z3.Const(f"{tag}.rng0", Leaf), dist=dist), module=BASE, frozen=True)
 
 
@@ -203,6 +206,17 @@ class AugmentFrame(Unit):
             ctx.ensure("C12 messages of unsent / out-of-horizon steps are masked with -1 (seq_out, seq_in and ts_recv)",
                        z3.ForAll([j], z3.Implies(z3.And(0 <= j, j < so.n, z3.Select(so.a, j) == -1), z3.And(z3.Select(e.f["seq_out"].a, j) == -1, z3.Select(e.f["ts_recv"].a, j) == -1, z3.Select(e.f["seq_in"].a, j) == -1))),
                        hyps=None)
+            comm = [sd for (tg, sd) in ex.ghost.get("dsample_calls", []) if tg == "ab.comm"]
+            ctx.ensure("C12 the communication delay is drawn once per generated edge, from that connection's own distribution", z3.BoolVal(len(comm) == 1))
+            if len(comm) == 1:
+                ds = DSAMPLE(z3.Const("ab.comm.dist", Leaf), comm[0])
+                d = z3.If(ds < 0, z3.RealVal(0), ds)
+                ctx.ensure("C12 a sent message is received at its sender's end time plus the (non-negative) sampled communication delay: never before it was sent",
+                           z3.ForAll([j], z3.Implies(z3.And(0 <= j, j < so.n, z3.Select(so.a, j) != -1),
+                                                     z3.And(z3.Select(e.f["ts_recv"].a, j) == z3.Select(te.a, j) + d, z3.Select(e.f["ts_recv"].a, j) >= z3.Select(te.a, j)))), hyps=None)
+                tmx = z3.Real("ts_max_eps")
+                ctx.ensure("C12 messages sent within the horizon keep their sequence number; later ones are masked",
+                           z3.ForAll([j], z3.Implies(z3.And(0 <= j, j < so.n), z3.Select(e.f["seq_out"].a, j) == z3.If(z3.Or(z3.Select(so.a, j) == -1, z3.Select(te.a, j) > tmx), -1, z3.Select(so.a, j)))), hyps=None)
 
 
 class VertexSpacing(Unit):
